@@ -329,7 +329,12 @@ async def process_resource_causes(
         consistency_is_achieved = unslept is None  # "woke up" vs. "timed out"
     consistency_is_achieved = consistency_is_achieved and patch_initially_empty
     if consistency_is_required and not consistency_is_achieved:
-        return list(spawning_delays), False  # exit to PATCHing and/or re-iterating over new events.
+        # Exit to PATCHing and/or re-iterating over new events. Should nothing come by the time of
+        # the assumed consistency -- not even from the patch accumulated by now, as it can happen
+        # to change nothing -- get back to this object at that time (by sleeping & touching).
+        loop = asyncio.get_running_loop()
+        remaining = [max(0, consistency_time - loop.time())] if consistency_time else []
+        return list(spawning_delays) + remaining, False
 
     # Now, the consistency is either pre-proven (by receiving or not expecting any resource version)
     # or implied (by exceeding the allowed consistency-waiting timeout while getting no new events).
